@@ -1,0 +1,42 @@
+//go:build verif
+
+package object
+
+// Machine-checked contracts (govc, see /verif/DESIGN.md). Comment-only file.
+// Assumed parser contracts: /verif/contracts/deps/protowire.govc.
+
+//@ fileprops C41
+
+// No input makes the fast paths panic: every slice expression and index is in bounds and the
+// "unreachable" panics are unreachable (sweep = one obligation per such operation).
+// A tag is never parsed at the very end of the buffer: a message may end after any field, so
+// running off the end must stop the scan, not fail it (this is what full decoding does).
+
+//@ callrule c41_scan_stops_at_end_of_buffer in GetNonPayloadFieldBounds, getParentNonPayloadFieldBounds
+//@   callee protobuf.ParseTag
+//@   pureeffect
+//@   requires [never_parse_a_tag_at_the_end] len(a0) > 0
+
+//@ func ExtractHeaderAndPayload
+//@   sweep
+//@   loop 1 invariant 0 <= offset && offset <= len(data)
+//@   ensures [payload_prefix_is_a_suffix_of_the_input] err == nil ==> len(res1) <= len(data)
+
+//@ func GetNonPayloadFieldBounds
+//@   sweep
+//@   loop 1 invariant 0 <= off && off < len(buf)
+//@   loop 1 invariant 0 <= idf.From && idf.From <= idf.ValueFrom && idf.ValueFrom <= idf.To && idf.To <= len(buf)
+//@   loop 1 invariant 0 <= sigf.From && sigf.From <= sigf.ValueFrom && sigf.ValueFrom <= sigf.To && sigf.To <= len(buf)
+//@   ensures [bounds_inside_buffer] err == nil ==> 0 <= res0.From && res0.To <= len(buf) && 0 <= res1.From && res1.To <= len(buf) && 0 <= res2.From && res2.To <= len(buf)
+//@   ensures [fields_in_ascending_order] err == nil ==> res0.From <= res0.ValueFrom && res0.ValueFrom <= res0.To && res1.From <= res1.ValueFrom && res1.ValueFrom <= res1.To && res2.From <= res2.ValueFrom && res2.ValueFrom <= res2.To
+
+//@ func GetParentNonPayloadFieldBounds
+//@   sweep
+//@ func GetParentNonPayloadFieldBoundsHeader
+//@   sweep
+//@ func getParentNonPayloadFieldBounds
+//@   sweep
+//@   requires [header_range_inside_buffer] 0 <= hdrFrom && hdrFrom <= hdrTo && hdrTo <= len(buf)
+//@   loop 1 invariant 0 <= off && off < len(buf) && len(buf) <= old(len(buf))
+//@   loop 1 invariant 0 <= idf.From && idf.To <= len(buf) && 0 <= sigf.From && sigf.To <= len(buf)
+//@   ensures [bounds_inside_buffer] err == nil ==> 0 <= res0.From && res0.To <= old(len(buf)) && 0 <= res1.From && res1.To <= old(len(buf)) && 0 <= res2.From && res2.To <= old(len(buf))
